@@ -27,7 +27,7 @@ CLAIMED['C09'] = dict(tech='guard-dominance + sibling deviance on divisions by b
     text='Static (part): every division by a background frequency is dominated by a zero test of the same value (deviance rule over 4 sites); the one- and two-step '
          'log-odds routes share the zero convention; min/max score sum a per-row min/max over all non-wildcard columns with the natural order; validation exits '
          'exist with the right polarity and dominate Ok construction, with the extent of each validation (every row, every cell, every frequency); counting increments (position, symbol); '
-         'Background::from_counts writes every symbol index; every conversion that takes a background carries that background in its result. The floating-point arithmetic itself is not decided.',
+         'Background::from_counts writes every symbol index; every conversion that takes a background carries that background in its result; to_freq is (count + pseudocount) / row total over every row and column. The floating-point arithmetic itself is not decided.',
     ref='DESIGN.md §4 C09')
 
 CLAIMED['C02'] = dict(tech='guard dominance / check-before-use on the scanner loop, linear-form position formula, estimate-direction (UP/DOWN) classification of the 8-bit comparisons',
@@ -39,7 +39,7 @@ CLAIMED['C02'] = dict(tech='guard dominance / check-before-use on the scanner lo
 CLAIMED['C03'] = dict(tech='estimate-direction (UP/DOWN) dataflow on the pruning bound + guard dominance on every update of the best hit',
     text='Static (part): every value assigned to the pruning bound of Scanner::max is scale(exact score) (an under-estimate), all 8-bit tests are inclusive, candidates are bounded before rescoring, '
          'best is seeded from buffered hits >= threshold and replaced only under an exact comparison on every path into the replacement (first candidate: score >= threshold), '
-         'the block maximum covers all rows and columns of the block. With C08 these imply exact maximality (paper argument).',
+         'the block maximum covers all rows and columns of the block, Threshold::threshold lists every cell >= the byte threshold, hits are ordered by score then position, and the look-ahead-row bookkeeping holds. With C08 these imply exact maximality (paper argument).',
     ref='DESIGN.md §4 C03')
 CLAIMED['C08'] = dict(tech='estimate-direction analysis: rounding-direction and field-plumbing rules on to_discrete/scale, saturation inventory over every Score<u8> implementation, orientation of pruning comparisons',
     text='Static: cells are ceil((x-offset_i)/factor) (UP) and the threshold mapping is floor((s-offset)/factor) (DOWN) over the same stored fields; every 8-bit accumulation reachable from a '
@@ -50,7 +50,7 @@ CLAIMED['C08'] = dict(tech='estimate-direction analysis: rounding-direction and 
 CLAIMED['C18'] = dict(tech='check-before-use dataflow on every __getitem__, sibling deviance on negative-index normalisation, linear-form pairing of exported extents and strides, format/itemsize/type table',
     text='Static: for each of the 5 __getitem__ the accessor operand must be the variable that passed 0 <= i < len with len the __len__ quantity and negative indices normalised; '
          'each 2-D export pairs extent columns() with stride size_of(T) and extent rows() with stride()*size_of(T); format, itemsize and pointer element type agree for the 5 buffer exports; '
-         'null-view and writable-request refusals dominate every write to the view.',
+         'null-view and writable-request refusals dominate every write to the view; no undischarged panic site in the binding (empty-matrix exports).',
     ref='DESIGN.md §4 C18')
 
 CLAIMED['C14'] = dict(tech='provenance matching of matrix-fill stores, constant-table extraction, who-may-call on stream primitives, must-pass-through state reset, relational summary of buffer compaction, field-plumbing by variable names',
@@ -67,7 +67,7 @@ CLAIMED['C15'] = dict(tech='panic-site inventory over the call graph reachable f
 CLAIMED['C16'] = dict(tech='relational effect summaries of include/exclude/_new compared under the `inverse` relation, who-writes-state rule, call-order (dominance) rule, linear-form start ranges, who-may-call on randomness sources',
     text='Static (part): the invariant "state = recomputation from the alignment" has a structural inductive proof that is checked: _new establishes it (include summary on zeroed state per active sequence), '
          'include/exclude are exact inverses on the same cells under complementary guards, nothing else writes the state, next() calls exclude(z) -> prepare_pssm -> update_holdout(z) -> include(z) and yields the '
-         'matrices computed without z, start ranges keep windows inside sequences, every random draw uses the caller-supplied RNG (determinism), and the striped layout the sampler reads through (configure_wrap bookkeeping, index and counting formulas) satisfies the C04 rules.',
+         'matrices computed without z, start ranges keep windows inside sequences, every random draw uses the caller-supplied RNG (determinism), and the striped layout the sampler reads through (configure_wrap bookkeeping, index and counting formulas) satisfies the C04 rules; count_matrix / active_sequences / active_starts report the maintained state.',
     ref='DESIGN.md §4 C16')
 
 CLAIMED['C17'] = dict(tech='wrapper/core callee agreement over the call graph, finite table of the method-string match, unused-argument dataflow, guard-polarity deviance, dominance (configure before score), panic-site inventory of the binding',
@@ -85,7 +85,7 @@ CLAIMED['C01'] = dict(tech='lane-dependence abstract interpretation of the SIMD 
 CLAIMED['C07'] = dict(tech='lane-dependence abstract interpretation of the max/argmax kernels (reduction identity in the element domain, value/index mask pairing, lane->column map of the spilled indices), guard dominance, relational matching of threshold',
     text='Static (part): every SIMD max/argmax accumulator starts at a lower bound of its element domain; value and index accumulators are blended under one mask comparing the cell of their own column; '
          'element t of the spilled index array is shown to hold the candidate of column t, the column the scalar epilogue attributes to it; all 32 (or C) columns participate; is_empty guards dominate row 0; '
-         'the default threshold is inclusive and visits each cell once with no overriding backend; dispatcher arms. NaN / rounding not decided.',
+         'the default threshold is inclusive and visits each cell once with no overriding backend; dispatcher arms; Scores::max / argmax in pipeline form; the reverse complement carries the wildcard column (padding cells stay -inf). NaN / rounding not decided.',
     ref='DESIGN.md §4 C07')
 
 CLAIMED['C04'] = dict(tech='lane-dependence abstract interpretation of the AVX2 transpose network, relational summaries of the scalar placement / fill / wrap-row construction, who-writes-field rule, ceil-div formula agreement',
